@@ -88,7 +88,7 @@ fn("util/topological.py::find_cycles", props=["C19"], proof=False,
    c_ensures=["forall(lambda x: (x in result) == on_cycle(tuples, x))"],
    harness="topological.find_cycles")
 
-# ---- find_cycles: SOUNDNESS under proof (every reported node lies on a cycle); completeness is bounded (harness above)
+# ---- find_cycles: SOUNDNESS under proof (every reported node lies on a cycle); COMPLETENESS further below (#completeness)
 # R is a rigid ghost relation: any transitive relation that contains the edges (hence the transitive closure): proving
 # R(x, x) for every reported x for arbitrary such R is "x is on a cycle".
 def REL(a, b):
@@ -131,3 +131,47 @@ fn("util/topological.py::sort#proof", props=["C19"],
             "all(implies(t[0] in allitems and t[1] in allitems and t[0] is not t[1], index(out, t[0]) < index(out, t[1])) for t in tuples)"],
    may_raise={"CircularDependencyError": "True"},
    modifies=[], returns="none")
+
+
+# ---- find_cycles: COMPLETENESS under proof.  cyc0 is a rigid ghost parameter: an arbitrary cycle
+#     cyc0[0] -> cyc0[1] -> ... -> cyc0[k] -> cyc0[0]        (k >= 0; a self loop is a cycle of length one)
+# Proved: cyc0[0] is reported.  (Every node on a cycle is the head of some such sequence, so all of them are.)
+# Argument carried by the invariants: in the pass that starts the depth-first search at ROOT, `visited` = nodes_to_test - todo is,
+# once the stack is empty, closed under the edges (W2) and contains ROOT; by induction along cyc0 (axiom chain_in_intro, proved in
+# lemmas/Chain.lean) it contains the whole cycle; the last node of the cycle was popped after all its edges had been examined
+# with ROOT still at the bottom of the stack, which put ROOT into output (W3).
+ROOT = "seq(nodes_to_test)[_i1]"
+VISITED = "(setof(nodes_to_test) - setof(todo))"
+CYC_PRE = ["all(is_tuple(t, 2) for t in tuples)", "len(cyc0) >= 1",
+           "all(" + EDGE("cyc0[j]", "cyc0[j + 1]") + " for j in range(len(cyc0) - 1))",
+           EDGE("cyc0[len(cyc0) - 1]", "cyc0[0]")]
+# (instances of the two clauses above, stated so that the solver need not find them: each cycle node has an outgoing edge)
+CYC_PRE += ["all(any(t[0] is cyc0[j] for t in tuples) for j in range(len(cyc0)))"]
+FC_KEYS = "forall(lambda p, c: implies(c in edges[p], p in edges))"
+DONE_ROOTS = "implies(cyc0[0] in prefix(seq(nodes_to_test), _I), cyc0[0] in output)"
+W1 = ["no_dups(stack)", "all(s in nodes_to_test and s not in todo for s in stack)", "implies(len(stack) > 0, stack[0] is " + ROOT + ")",
+      "all(x in nodes_to_test for x in todo)", ROOT + " not in todo", "forall(lambda p: (p in nodes_to_test) == (p in edges))"]
+W2 = "forall(lambda u, v: implies(u in nodes_to_test and u not in todo and u not in stack and v in edges[u] and v in nodes_to_test, v not in todo))"
+W3 = "forall(lambda u: implies(u in nodes_to_test and u not in todo and u not in stack and " + ROOT + " in edges[u], " + ROOT + " in output))"
+# W2 specialised to the ghost cycle (so that the induction step of chain_in_intro is literally an invariant clause)
+W2C = "all(implies(cyc0[j] not in todo and cyc0[j] not in stack, cyc0[j + 1] not in todo) for j in range(len(cyc0) - 1))"
+F3C = "all(implies(cyc0[j] is top and cyc0[j + 1] in prefix(seq(edges[top]), _i), cyc0[j + 1] not in todo) for j in range(len(cyc0) - 1))"
+WEND = "implies(len(stack) == 0 and cyc0[0] is " + ROOT + ", all_in(" + VISITED + ", cyc0))"
+# consequence of WEND for the last node of the cycle (stated to spare the solver the elimination step)
+WEND2 = "implies(len(stack) == 0 and cyc0[0] is " + ROOT + ", cyc0[len(cyc0) - 1] in nodes_to_test and cyc0[len(cyc0) - 1] not in todo)"
+HEAD_IN = "all(cyc0[j] in nodes_to_test for j in range(len(cyc0)))"      # every node of the cycle has an outgoing edge
+fn("util/topological.py::find_cycles#completeness", props=["C19"],
+   types={"tuples": "seq", "allitems": "seq", "cyc0": "seq", "edges": "ddset", "nodes_to_test": "set", "output": "set", "stack": "list", "todo": "set",
+          "cyc": "seq"},
+   callees={"util.defaultdict": "ddset"},
+   requires=CYC_PRE,
+   invariant={0: ["forall(lambda p, c: (c in edges[p]) == any(tuples[j][0] is p and tuples[j][1] is c for j in range(_i)))", FC_KEYS,
+                  "all(tuples[k][0] in edges for k in range(_i))"],
+              1: [FC_EDGES, FC_KEYS, "forall(lambda p: (p in nodes_to_test) == (p in edges))", HEAD_IN, DONE_ROOTS.replace("_I", "_i")],
+              2: [FC_EDGES, FC_KEYS] + W1 + [W2, W3, HEAD_IN, W2C, WEND, DONE_ROOTS.replace("_I", "_i1")],
+              3: [FC_EDGES, FC_KEYS] + W1 + [W2, W3, HEAD_IN, W2C, F3C, DONE_ROOTS.replace("_I", "_i1"), "len(stack) > 0 and top is stack[-1]",
+                  # the targets examined so far in this pass over edges[top] are not waiting in todo, and an edge back to ROOT has been recorded
+                  "all(n not in todo for n in prefix(seq(edges[top]), _i))",
+                  "implies(" + ROOT + " in prefix(seq(edges[top]), _i), " + ROOT + " in output)"]},
+   ensures=["cyc0[0] in result"],
+   returns="set", modifies=[])
